@@ -779,6 +779,8 @@ func concat(a ...MalType) (MalType, error) {
 	if e != nil {
 		return nil, e
 	}
+	// never append into the backing array of the first argument
+	slc1 = append([]MalType{}, slc1...)
 	for i := 1; i < len(a); i += 1 {
 		slc2, e := GetSlice(a[i])
 		if e != nil {
